@@ -170,6 +170,7 @@ def _frozen_net(ctx, p):
     else:
         net = nets.build_H(ctx, s, cls=CLS[p["cls"]])[0]
     if p["via"] == "freeze":
+        ctx.require(net.is_frozen is False, "is_frozen is not False before freeze()")
         net.freeze()
     else:  # the result of subhypergraph is frozen
         with warnings.catch_warnings():
@@ -261,6 +262,78 @@ def copy(ctx, p):
     ctx.require(nets.same(before, structural(net)), "editing the copy changed the frozen original")
 
 
+def create_using_functions():
+    """Every public function with a `create_using` parameter (introspected)."""
+    out = {}
+    for n in sorted(dir(xgi)):
+        f = getattr(xgi, n)
+        if n.startswith("_") or not callable(f) or inspect.isclass(f):
+            continue
+        try:
+            sig = inspect.signature(f)
+        except (TypeError, ValueError):
+            continue
+        if "create_using" in sig.parameters:
+            out[n] = f
+    return out
+
+
+def _cu_args(ctx, name, f, cls):
+    """Positional data for a create_using function; None if no recipe."""
+    a, b = ctx.fresh(), ctx.fresh()
+    first = list(inspect.signature(f).parameters)[0]
+    if first == "create_using":
+        return ()
+    if name in ("to_hypergraph", "to_simplicial_complex", "from_hyperedge_list"):
+        return ([[a, b]],)
+    if name == "to_dihypergraph":
+        return ([([a], [b])],)
+    if name in ("from_hyperedge_dict", "from_simplex_dict"):
+        return ({ctx.fresh("i"): [a, b]},)
+    if name == "from_incidence_matrix":
+        import numpy as np
+
+        return (np.array([[1], [1]]),)
+    if name == "from_bipartite_pandas_dataframe":
+        import pandas as pd
+
+        return (pd.DataFrame({0: pd.Series([a, b], dtype=object), 1: pd.Series([a, a], dtype=object)}),)
+    return None
+
+
+@harness("C18.create_using")
+def create_using(ctx, p):
+    """A frozen network handed to a library function as `create_using` must not be
+    emptied or filled: the library's error, structure unchanged."""
+    net = _frozen_net(ctx, dict(p, via="freeze"))
+    f = create_using_functions()[p["f"]]
+    ctx.info["op"] = "create_using:" + p["f"]
+    args = _cu_args(ctx, p["f"], f, p["cls"])
+    if args is None:
+        ctx.info["outcome"] = "no recipe"
+        return
+    before = structural(net)
+    try:
+        with warnings.catch_warnings():
+            warnings.simplefilter("ignore")
+            f(*args, create_using=net)
+        exc = None
+    except Exception as ex:
+        exc = ex
+    ctx.info["outcome"] = "returned" if exc is None else f"raised {type(exc).__name__}"
+    ctx.require(nets.same(before, structural(net)), "a frozen network passed as create_using was structurally modified")
+    ctx.require(net.is_frozen is True, "is_frozen is not True after the call")
+    # create_using semantics: the instance is cleared and refilled, so on a frozen
+    # instance the call must be refused with the library's own error
+    ctx.require(exc is not None, "a function given a frozen create_using network returned normally")
+    ctx.require(exc is None or isinstance(exc, LIB_ERRORS), "a function given a frozen create_using network raised a foreign error type")
+
+
+NATURAL = {"H": ("empty_hypergraph", "to_hypergraph", "from_hyperedge_list", "from_hyperedge_dict", "from_incidence_matrix", "from_bipartite_pandas_dataframe"),
+           "S": ("empty_simplicial_complex", "to_simplicial_complex", "from_simplex_dict"),
+           "D": ("empty_dihypergraph", "to_dihypergraph")}
+
+
 def spec(tier, seed):
     disc = discover()
     if tier == "quick":
@@ -283,6 +356,11 @@ def spec(tier, seed):
                     for style in ("keyword", "positional"):
                         units.append(("C18.frozen", {"cls": cls, "shape": s, "via": via, "kind": "generic", "op": m, "style": style}))
                 units.append(("C18.copy", {"cls": cls, "shape": s, "via": via}))
+        for fn in create_using_functions():
+            if fn not in NATURAL[cls]:
+                continue  # class-mismatched create_using is rejected for other reasons
+            for s in sh[cls][:6]:
+                units.append(("C18.create_using", {"cls": cls, "shape": s, "f": fn, "op": fn, "kind": "create_using"}))
 
     def post(results):
         return {"coverage": {"discovered_mutators": {c: disc[c]["mutators"] for c in disc},
